@@ -2,14 +2,14 @@
 from pipeline import run_pipeline
 
 TIERS = {
-    "quick": dict(mc=[("MC_RtpsLink_q.cfg", 8)], replay_limit=4000, random=dict(runs=320, events=24)),
-    "thorough": dict(mc=[("MC_RtpsLink_t.cfg", 12), ("MC_RtpsLink_t2.cfg", 12)], replay_limit=60000, random=dict(runs=4000, events=40)),
+    "quick": dict(mc=[("MC_RtpsLink_q.cfg", 8), ("MC_RtpsLink_q_late.cfg", 8)], replay_limit=5000, random=dict(runs=320, events=24)),
+    "thorough": dict(mc=[("MC_RtpsLink_t.cfg", 12), ("MC_RtpsLink_t2.cfg", 12), ("MC_RtpsLink_q_late.cfg", 8), ("MC_RtpsLink_t_late.cfg", 12)], replay_limit=60000, random=dict(runs=4000, events=40)),
 }
 ASSUME = [
     "state space bounded by the constants in spec/MC_RtpsLink_*.cfg (samples, fragments, fault budget, rounds)",
     "FIFO network per direction; faults = drop / duplicate (model) plus swap-with-next (random runs); timers fired by the harness in the order heartbeat, deliver, repair, deliver",
     "K = 3 rounds in the model, 4 in the validation of real runs (the property only says 'bounded')",
-    "writer TransientLocal reliable, reader reliable KeepAll with limits not exceeded",
+    "writer TransientLocal reliable, reader reliable KeepAll with limits not exceeded; the reader does not request history, so samples written before the match (Pre) are owed a GAP, not data",
 ]
 
 
